@@ -216,17 +216,17 @@ def call_ext(I: Any, name: str, args: List[Term], kwargs: Dict[str, Term], st: A
             return top("wrap of non-text")
         return ("chunks", s, n)
     if name == "builtins.open":
-        st.may_raise("OSError", ("ext", "open fails"), where)
+        st.may_raise("OSError", ("ext", "open fails", st.fresh("ext")), where)
         return I.external_call("open", args, kwargs, st, ctx, node, awaited, ("sym", st.fresh("file"), ("extobj", "file")))
     if name == "json.load" or name == "json.loads":
-        st.may_raise("json.JSONDecodeError", ("ext", "invalid json"), where)
+        st.may_raise("json.JSONDecodeError", ("ext", "invalid json", st.fresh("ext")), where)
         return ("sym", st.fresh("json"), "json")
     if name == "logging.getLogger":
         return ("modvar", "logging", "logger")
     if name == "warnings.warn":
         return I.external_call("warn", args, kwargs, st, ctx, node, awaited, c(None))
     if name == "asyncio.open_connection":
-        st.may_raise("OSError", ("ext", "connection refused/unreachable"), where)
+        st.may_raise("OSError", ("ext", "connection refused/unreachable", st.fresh("ext")), where)
         r = ("sym", st.fresh("reader"), ("extobj", "StreamReader"))
         w = ("sym", st.fresh("writer"), ("extobj", "StreamWriter"))
         return I.external_call("asyncio.open_connection", args, kwargs, st, ctx, node, awaited, ("tuple", (r, w)))
@@ -993,7 +993,7 @@ def call_method(I: Any, recv: Term, name: str, args: List[Term], kwargs: Dict[st
             elif name == "is_closing":
                 res = ("sym", st.fresh(f"{base}.is_closing"), "bool")
             elif name == "create_datagram_endpoint":
-                st.may_raise("OSError", ("ext", "bind fails (address in use)"), where)
+                st.may_raise("OSError", ("ext", "bind fails (address in use)", st.fresh("ext")), where)
                 res = ("tuple", (("sym", st.fresh("transport"), ("extobj", "transport")), ("sym", st.fresh("protocol"), ("extobj", "protocol"))))
             elif name == "wait_closed":
                 res = c(None)
